@@ -363,6 +363,14 @@ def judge(rec: Recorder, e, verdict: bool, tally):
         rec.extra.setdefault("harness_errors", []).append(repr(exc)[:300] + " @ " + str(e.describe())[:300])
     monitor_forward(sink, e)
     monitor_rebuild(sink, e)
+    ch = getattr(e, "parent_changed", None)
+    if ch is not None:
+        sink.hit("parent_untouched_checks")
+        if ch:
+            from vf.refmodels import archwalk as aw
+
+            sink.violate("rebuild", "mutating_the_clone_changed_the_parents_constructor_description", aw.site_of(e, e.applied or e.called),
+                         fields=ch[:6], **e.describe())
 
 
 def run_case(case):
